@@ -85,8 +85,9 @@ impl Lay {
         (a..a + n).map(|x| if (x as usize) < self.stack.len() { self.stack[x as usize] } else { self.heap[(x - self.hp) as usize] }).collect()
     }
 }
-fn owned(regs: &[u64; NREG], a: u64, n: u64) -> bool {
-    let (ssp, sp, hp, prev) = (regs[SSP], regs[SP], regs[HP], VM_MAX_RAM);
+/// `prev` = the `$hp` saved in the innermost call frame (`VM_MAX_RAM` in a script)
+fn owned(regs: &[u64; NREG], a: u64, n: u64, prev: u64) -> bool {
+    let (ssp, sp, hp) = (regs[SSP], regs[SP], regs[HP]);
     let e = a + n;
     let st = a >= ssp && a < sp && e <= VM_MAX_RAM && e >= ssp && e <= sp;
     let hpo = a >= hp && hp != prev && e <= prev;
@@ -96,7 +97,7 @@ fn owned(regs: &[u64; NREG], a: u64, n: u64) -> bool {
 struct Expect { status: &'static str, dest_reg: Option<(usize, u64)>, of: Option<u64>, err: Option<u64>, write: Option<(u64, Vec<u8>)> }
 
 /// reference semantics of one wide instruction
-fn reference(name: &str, a: &[u32], regs: &[u64; NREG], lay: &Lay) -> Expect {
+fn reference(name: &str, a: &[u32], regs: &[u64; NREG], lay: &Lay, prev: u64) -> Expect {
     let n: u64 = if name.as_bytes()[1] == b'D' { 16 } else { 32 };
     let w = (8 * n) as usize;
     let kind = &name[2..];
@@ -110,7 +111,7 @@ fn reference(name: &str, a: &[u32], regs: &[u64; NREG], lay: &Lay) -> Expect {
     // result to memory, with $of/$err already set; the write may still fail
     let finish = |res: Big, of: u64, err: u64| -> Expect {
         let dest = r(a[0]);
-        let wr: Result<(), &'static str> = lay.readable(dest, n).and_then(|_| if owned(regs, dest, n) { Ok(()) } else { Err("MemoryOwnership") });
+        let wr: Result<(), &'static str> = lay.readable(dest, n).and_then(|_| if owned(regs, dest, n, prev) { Ok(()) } else { Err("MemoryOwnership") });
         match wr {
             Ok(()) => Expect { status: "ok", dest_reg: None, of: Some(of), err: Some(err), write: Some((dest, res.to_be(n as usize))) },
             // the implementation updates $of/$err before the write is attempted; the specification only fixes the panic
@@ -194,9 +195,12 @@ fn wide_val(ctx: &mut Ctx, n: usize) -> Vec<u8> {
     v
 }
 
-struct Case { name: &'static str, raw: u32, args: Vec<u32>, regs: [u64; NREG], lay: Lay }
+/// `prev`: `None` = script context (`prev_hp = VM_MAX_RAM`, request `w …`); `Some(p)` = executed on a VM stopped inside a real
+/// CALL whose frame saved `$hp = p` (request `v <p> …`)
+struct Case { name: &'static str, raw: u32, args: Vec<u32>, regs: [u64; NREG], lay: Lay, prev: Option<u64> }
 
-fn run_case(ctx: &mut Ctx, vm: &mut Vm, cs: &Case) {
+/// returns false when the VM had to be discarded (host panic)
+fn run_case(ctx: &mut Ctx, vm: &mut Vm, cs: &Case) -> bool {
     let lay = &cs.lay;
     // lay out the real VM's memory
     let setup = ctx.guard(|| {
@@ -211,12 +215,14 @@ fn run_case(ctx: &mut Ctx, vm: &mut Vm, cs: &Case) {
             vm.memory_mut().write_noownerchecks(lay.hp, lay.heap.len()).expect("heap").copy_from_slice(&lay.heap);
         }
     });
-    if let Err(msg) = setup { ctx.oracle_fail("panic-setup", cs.name, &msg); *vm = new_vm(); return; }
-    let req = format!("w {} {} {} {} {} {}", cs.raw, lay.stack.len(), lay.hp, hex(&lay.stack), hex(&lay.heap), fmt_regs(&cs.regs));
+    if let Err(msg) = setup { ctx.oracle_fail("panic-setup", cs.name, &msg); *vm = new_vm(); return false; }
+    let head = match cs.prev { None => "w".to_string(), Some(p) => format!("v {p}") };
+    let prev = cs.prev.unwrap_or(VM_MAX_RAM);
+    let req = format!("{head} {} {} {} {} {} {}", cs.raw, lay.stack.len(), lay.hp, hex(&lay.stack), hex(&lay.heap), fmt_regs(&cs.regs));
     let regs = cs.regs; let raw = cs.raw;
     let (st, after) = match ctx.guard(|| step(vm, &regs, raw)) {
         Ok(v) => v,
-        Err(msg) => { ctx.oracle_fail(&format!("panic-{}", cs.name), &req, &msg); *vm = new_vm(); ctx.emit(&req, "HOST-PANIC"); return; }
+        Err(msg) => { ctx.oracle_fail(&format!("panic-{}", cs.name), &req, &msg); *vm = new_vm(); ctx.emit(&req, "HOST-PANIC"); return false; }
     };
     let stack_after: Vec<u8> = vm.memory().stack_raw()[..lay.stack.len()].to_vec();
     let heap_after: Vec<u8> = if lay.heap.is_empty() { vec![] } else { vm.memory().read(lay.hp, lay.heap.len()).expect("heap readable").to_vec() };
@@ -231,9 +237,10 @@ fn run_case(ctx: &mut Ctx, vm: &mut Vm, cs: &Case) {
         _ => String::new(),
     };
     ctx.count(&format!("op.{}", cs.name)); ctx.count(&format!("st.{st}"));
+    if cs.prev.is_some() { ctx.count(&format!("in-call.st.{st}")); }
     // ---- property oracle ----
     let fp = |k: &str| format!("{}-{}", cs.name.to_lowercase(), k);
-    let e = reference(cs.name, &cs.args, &regs, lay);
+    let e = reference(cs.name, &cs.args, &regs, lay, prev);
     if st != e.status { ctx.oracle_fail(&fp("wrong-status"), &req, &format!("expected {}, got {st}", e.status)); }
     else if st == "ok" {
         if let Some((i, v)) = e.dest_reg { if after[i] != v { ctx.oracle_fail(&fp("wrong-register-result"), &req, &format!("reg {i} = {}, expected {v}", after[i])); } }
@@ -257,8 +264,18 @@ fn run_case(ctx: &mut Ctx, vm: &mut Vm, cs: &Case) {
         if after[OF] != regs[OF] || after[ERR] != regs[ERR] { ctx.count("panic-after-of-err-update"); }
     }
     let mut key = cs.raw.to_be_bytes().to_vec(); key.extend_from_slice(&lay.stack); key.extend_from_slice(&lay.heap); key.push(regs[FLAG] as u8);
+    if let Some(p) = cs.prev {
+        key.extend_from_slice(&p.to_be_bytes());
+        // destination class relative to the caller's heap: the discriminating cases of `prev_hp`
+        if &cs.name[2..] != "CM" {
+            let n: u64 = if cs.name.as_bytes()[1] == b'D' { 16 } else { 32 };
+            let d = regs[cs.args[0] as usize];
+            if d >= regs[HP] && d.saturating_add(n) <= VM_MAX_RAM { ctx.count(if d + n <= p { "in-call.dest-own-heap" } else if d >= p { "in-call.dest-caller-heap" } else { "in-call.dest-straddles-prev-hp" }); }
+        }
+    }
     ctx.distinct(&key);
     ctx.emit(&req, &format!("{st}{}{}", fmt_diff(&regs, &after), memdiff));
+    true
 }
 
 /// operands placed in memory; registers point to them (or hold direct values); dest chosen among owned / unowned / unreadable places
@@ -340,8 +357,10 @@ fn gen_case(ctx: &mut Ctx, name: &'static str, imm_force: Option<u32>) -> Case {
     let raw = encode(r.0, shape, &args);
     // decoded immediate as carried
     let args: Vec<u32> = if four_regs { args } else { vec![args[0], args[1], args[2], imm & 63] };
-    Case { name, raw, args, regs, lay }
+    Case { name, raw, args, regs, lay, prev: None }
 }
+
+fn ctx_seed(i: u64) -> u64 { 0xC22 + i }
 
 pub fn run(ctx: &mut Ctx) {
     if std::env::var("FV_DEBUG").is_ok() { std::panic::set_hook(Box::new(|i| eprintln!("panic: {i}"))); }
@@ -354,12 +373,27 @@ pub fn run(ctx: &mut Ctx) {
         }
         for _ in 0..ctx.n(700, 15_000) { let cs = gen_case(ctx, name, None); run_case(ctx, &mut vm, &cs); }
     }
+    // 3. inside a real CALL: `prev_hp` is the `$hp` the caller had when it called (saved in the call frame), so the part of the
+    //    heap above it belongs to the caller. The VM is stopped in the callee (`c24::vm_in_call`); memory and registers are then
+    //    laid out as in part 1 (the interpreter's `frames` stay).
+    for (i, h) in [8u64, 40, 64].iter().enumerate() {
+        let saved = VM_MAX_RAM - h;
+        let mut cvm = match ctx.guard(|| crate::streams::c24::vm_in_call(ctx_seed(i as u64), *h)) { Ok(v) => v, Err(m) => { ctx.oracle_fail("panic-call-setup", "vm_in_call", &m); continue; } };
+        if crate::streams::c24::prev_hp_of(&cvm) != saved { ctx.oracle_fail("saved-hp-in-frame", &format!("call after ALOC {h}"), "unexpected saved $hp"); continue; }
+        for &name in WIDE {
+            for _ in 0..ctx.n(60, 1500) {
+                let mut cs = gen_case(ctx, name, None);
+                cs.prev = Some(saved);
+                if !run_case(ctx, &mut cvm, &cs) { cvm = crate::streams::c24::vm_in_call(ctx_seed(i as u64), *h); }
+            }
+        }
+    }
     // 2. malformed: reserved bits in the 4-register forms cannot exist (all 24 bits used); undefined neighbours of the W* block
     for op in [0x9fu32, 0xae, 0xaf] {
         let mut regs = base_regs(); regs[PC] = 8;
         let raw = op << 24 | (ctx.rng.next() as u32 & 0xFFFFFF);
         let lay = Lay { stack: vec![0; 64], heap: vec![], hp: VM_MAX_RAM };
-        let cs = Case { name: "WDCM", raw, args: vec![], regs, lay };
+        let cs = Case { name: "WDCM", raw, args: vec![], regs, lay, prev: None };
         // executed only for the correspondence (no reference semantics for undefined opcodes)
         let req = format!("w {} {} {} {} {} {}", cs.raw, 64, VM_MAX_RAM, hex(&cs.lay.stack), "-", fmt_regs(&cs.regs));
         vm.memory_mut().reset(); let _ = vm.memory_mut().grow_stack(64);
